@@ -13,6 +13,7 @@ Here's an example that opens a filesystem then makes it *read only*::
 
 from __future__ import print_function, unicode_literals
 
+import itertools
 import typing
 
 from .errors import ResourceNotFound, ResourceReadOnly
@@ -126,10 +127,13 @@ class WrapCachedDir(WrapFS[_F], typing.Generic[_F]):
         _path = abspath(normpath(path))
         cache_key = (_path, frozenset(namespaces or ()))
         if cache_key not in self._cache:
-            _scan_result = self._wrap_fs.scandir(path, namespaces=namespaces, page=page)
+            _scan_result = self._wrap_fs.scandir(path, namespaces=namespaces, page=None)
             _dir = {info.name: info for info in _scan_result}
             self._cache[cache_key] = _dir
         gen_scandir = iter(self._cache[cache_key].values())
+        if page is not None:
+            start, end = page
+            gen_scandir = itertools.islice(gen_scandir, start, end)
         return gen_scandir
 
     def getinfo(self, path, namespaces=None):
